@@ -58,6 +58,10 @@ CHECKS["C02"] = ("§5 C02", "Snapshots produced by the real handler/collector fo
 CHECKS["C07"] = ("§5 C07", "Snapshots of graph templates with sharing and cycles plus two watches (frame locals, fresh containers of existing objects, fresh scalars, "
     "failing) under a SYMBOLIC variable budget, produced by the real collector: every frame/child/watch reference resolves in the snapshot's own table, one object one id, "
     "distinct objects distinct ids (identity through the recorded hash), table no larger than the number of distinct objects (cycles end in back-references).")
+CHECKS["C15"] = ("§5 C15", "Well-formed sys.settrace event streams generated from choice vectors (line, call f/g, return, caught and propagating exceptions; 3 "
+    "choices quick, 4-5 thorough; recursion included) delivered to the real handler with 8 subsets of {method span, line span, method-capture, line-capture}: a monitor "
+    "checks every opening is completed exactly once, after it, within its invocation, captures carry that invocation's result, nothing stays pending; two sequential "
+    "threads with fresh or reused ident. Streams enumerated by the solver; three recorded findings are excluded by predicate.")
 PENDING = {}
 
 def main():
